@@ -3,8 +3,8 @@
    filter as repaired by fixes/1-redactor-overlapping-matches.patch; the behaviour before the repair is kept as
    [run_unrepaired] for the record of the defect. *)
 From Verif Require Import Base.Bytes Model.Redactor Model.RedactorCollect Src.SrcRedactor Proofs.RedactorBase
-  Proofs.RedactorStream Proofs.RedactorCover Proofs.RedactorEmit Proofs.RedactorMarks Proofs.RedactorProps
-  Proofs.RedactorCollect.
+  Proofs.RedactorStream Proofs.RedactorCover Proofs.RedactorEmit Proofs.RedactorMarks Proofs.RedactorFast
+  Proofs.RedactorProps Proofs.RedactorClash Proofs.RedactorCollect.
 From Coq Require Import Arith.
 Local Open Scope nat_scope.
 
@@ -88,23 +88,76 @@ Theorem C13_overlapping_reports_occurrences : forall pats t m, In m (lib_overlap
   exists p a b, In p pats /\ p <> [] /\ t = a ++ p ++ b /\ m = {| m_start := length a; m_len := length p |}.
 Proof. exact lib_overlapping_In. Qed.
 
-(* the full byte-level statement: no filtered secret (that cannot be confused with placeholder text) occurs in the
-   output ... *)
-Definition C13_no_secret_survives_full : Prop := forall secrets chunks p,
-  In p secrets -> rp_min_len src_params <= length p -> indep ph p = true ->
+(* ---- the byte-level statement ------------------------------------------------------------------------------------
+   FULL: no filtered secret occurs in the output.  It is false for two classes of secrets, each shown necessary below:
+     (a) has_inner_newline p - the line-buffered design never matches a secret with a newline before its last byte
+         (a genuine defect of esc: known finding C13-newline);
+     (b) ph_clash ph p       - the secret can be spelled with placeholder text: it lies inside "[secret]", contains
+         "[secret]", ends with a non-empty beginning of "[secret]" or begins with a non-empty end of it.  This is a limit
+         of the byte-level FORMULATION, not a leak (the placeholder text is a constant): secret `sec` on input `sec` gives
+         `[secret]`, which contains `sec`.  The flag-level theorems above (C13_no_secret_byte_forwarded,
+         C13_nothing_withheld_after_close) hold for these secrets too.
+   [C13_no_secret_survives excl] is the statement with the secrets in [excl] left out. *)
+Definition C13_no_secret_survives (excl : bytes -> bool) : Prop := forall secrets chunks p,
+  In p secrets -> rp_min_len src_params <= length p -> excl p = false ->
   ~ occurs p (run src_params secrets chunks).
 
-(* ... is refuted by the line-buffered design: a secret with a newline inside is never matched *)
-Theorem C13_multiline_refuted : ~ C13_no_secret_survives_full.
+Definition C13_no_secret_survives_full : Prop := C13_no_secret_survives (fun _ => false).
+
+(* refuted even when class (b) is left out: a secret with a newline inside is never matched *)
+Theorem C13_multiline_refuted : ~ C13_no_secret_survives (ph_clash ph).
 Proof. exact (fun H => H [chars "ab" ++ [nl] ++ chars "cd"] [chars "ab" ++ [nl]; chars "cd"]
                          (chars "ab" ++ [nl] ++ chars "cd") (or_introl eq_refl) (le_S _ _ (le_S _ _ (le_n 3))) eq_refl
                          (ex_intro _ [] (ex_intro _ [] eq_refl))). Qed.
 
-(* ... and holds for every secret outside that class (the recorded known finding C13-newline) *)
-Theorem C13_no_secret_survives_partial : forall secrets chunks p,
-  In p secrets -> rp_min_len src_params <= length p -> has_inner_newline p = false -> indep ph p = true ->
-  ~ occurs p (run src_params secrets chunks).
-Proof. exact (no_secret_survives src_params). Qed.
+(* refuted even when class (a) is left out: one witness for each of the four ways of clashing with the placeholder
+   (inside it; containing it; ending with a beginning of it; beginning with an end of it) *)
+Theorem C13_placeholder_clash_refuted : ~ C13_no_secret_survives has_inner_newline.
+Proof. exact (fun H => H [chars "sec"] [chars "sec"] (chars "sec") (or_introl eq_refl) (le_n 3) eq_refl
+                         (ex_intro _ (chars "[") (ex_intro _ (chars "ret]") eq_refl))). Qed.
+
+Theorem C13_placeholder_clash_each_way :
+     occurs (chars "sec") (run src_params [chars "sec"; chars "AAA"] [chars "AAA"])
+  /\ occurs (chars "x[secret]y") (run src_params [chars "x[secret]y"; chars "AAA"] [chars "xAAAy"])
+  /\ occurs (chars "ab[") (run src_params [chars "ab["; chars "AAA"] [chars "abAAA"])
+  /\ occurs (chars "]xy") (run src_params [chars "]xy"; chars "AAA"] [chars "AAAxy"])
+  /\ ph_clash ph (chars "sec") = true /\ ph_clash ph (chars "x[secret]y") = true
+  /\ ph_clash ph (chars "ab[") = true /\ ph_clash ph (chars "]xy") = true.
+Proof. exact (conj (ex_intro _ (chars "[") (ex_intro _ (chars "ret]") eq_refl))
+             (conj (ex_intro _ [] (ex_intro _ [] eq_refl))
+             (conj (ex_intro _ [] (ex_intro _ (chars "secret]") eq_refl))
+             (conj (ex_intro _ (chars "[secret") (ex_intro _ [] eq_refl))
+             (conj eq_refl (conj eq_refl (conj eq_refl eq_refl))))))). Qed.
+
+(* ... and it holds for every secret outside the two classes *)
+Theorem C13_no_secret_survives_partial :
+  C13_no_secret_survives (fun p => has_inner_newline p || ph_clash ph p).
+Proof. exact (fun secrets chunks p Hin Hlen Hex =>
+                no_secret_survives src_params secrets chunks p Hin Hlen
+                  (proj1 (proj1 (Bool.orb_false_iff _ _) Hex)) (proj2 (proj1 (Bool.orb_false_iff _ _) Hex))). Qed.
+
+(* class (b) is exact on a bounded family: for EVERY secret of 3 to 5 bytes over the alphabet { [ s t ] a } (3 875
+   strings) that clashes with the placeholder there is a run of the filter - found by [clash_witness]: the secret itself,
+   or a prefix and a suffix of it around another secret - whose output contains it *)
+Theorem C13_placeholder_clash_exact_bounded : forall p,
+  In p (words clash_alphabet 5) -> rp_min_len src_params <= length p -> ph_clash ph p = true ->
+  exists secrets chunks, In p secrets /\ occurs p (run src_params secrets chunks).
+Proof. exact (clash_exact_bounded src_params 5 (eq_refl true <: clash_check src_params 5 = true)). Qed.
+
+(* the class that the first version of this development left out (no `[`, no `]`, not a piece of the placeholder) was
+   coarser: everything it admitted is still admitted, and e.g. bracketed texts are now covered by the theorem *)
+Theorem C13_clash_class_narrower : forall p, indep ph p = true -> ph_clash ph p = false.
+Proof. exact (indep_no_clash ph). Qed.
+
+Example C13_clash_class_examples :
+     ph_clash ph (chars "[""a"",""b""]") = false /\ indep ph (chars "[""a"",""b""]") = false
+  /\ ph_clash ph (chars "fe80::1]") = false /\ ph_clash ph (chars "[x]") = false
+  /\ ph_clash ph (chars "secret") = true /\ ph_clash ph (chars "x[") = true.
+Proof. exact (conj eq_refl (conj eq_refl (conj eq_refl (conj eq_refl (conj eq_refl eq_refl))))). Qed.
+
+(* the linear-time definition the correspondence evaluates on lines of any length is the filter *)
+Theorem C13_fast_run_is_run : forall secrets chunks, run_fast src_params secrets chunks = run src_params secrets chunks.
+Proof. exact (run_fast_run src_params). Qed.
 
 (* the defect repaired by the fix: before it, overlapping occurrences made the library's ReplaceAllFunc panic *)
 Theorem C13_unrepaired_overlap_panics :
@@ -130,28 +183,50 @@ Proof. exact (all_secrets_collected_src arg_secrets_deep C13_src_collects_nested
    confusable with placeholder text) occurs in what esc forwards, whatever the command prints after its arguments *)
 Theorem C13_cmd_no_secret_survives_partial : forall root args script p,
   env_secret true root args p ->
-  rp_min_len src_params <= length p -> has_inner_newline p = false -> indep ph p = true ->
+  rp_min_len src_params <= length p -> has_inner_newline p = false -> ph_clash ph p = false ->
   ~ occurs p (cmd_out src_params arg_secrets_deep root args script).
 Proof. exact (cmd_no_secret_survives_src src_params arg_secrets_deep C13_src_collects_nested). Qed.
 
-(* however the command ends - exit status 0, a non-zero exit status or any other error after it has written its
-   output, or a failure to start - what esc forwards on each stream is the output loop run over EVERYTHING the command
-   wrote to that stream (nothing is withheld on the error path, the forwarded bytes do not depend on the exit status),
-   and esc fails exactly when running the command failed *)
-Theorem C13_cmd_nothing_withheld_however_it_ends : forall root args e script script2,
-  let secrets := cmd_secrets arg_secrets_deep root args in
+(* side condition on the source: both redactors are closed by deferred calls, i.e. on every path out of RunE *)
+Theorem C13_src_redactors_closed_on_every_path : redactors_closed_on_every_path = true.
+Proof. exact eq_refl. Qed.
+
+(* The whole command as the Write/Close state machine it is ([cmd_run_sm]): the child makes ANY sequence of Write calls
+   on each stream - every chunking [ch1] of its argument line and script, every chunking [ch2] of what it writes to the
+   other stream - and then ends in any of the three ways: exit status 0, a non-zero exit status or any other error after
+   it has written its output, or a failure to start.  With the redactors closed on every path (read from the source),
+   what esc has forwarded on each stream when RunE returns is the output loop run over EVERYTHING the command wrote to
+   that stream, no byte is left in a line buffer (nothing is withheld on the error path; the forwarded bytes depend
+   neither on the chunking nor on the exit status), and esc fails exactly when running the command failed.
+   (The first version of this theorem only unfolded the definition of the single-write abbreviation [cmd_run].) *)
+Theorem C13_cmd_nothing_withheld_however_it_ends : forall root args e script script2 ch1 ch2,
+  concat ch1 = cmd_stream (cmd_args root args) script -> concat ch2 = script2 ->
+  let pats := filtered (cmd_secrets arg_secrets_deep root args) in
   let w1 := child_wrote e (cmd_stream (cmd_args root args) script) in
   let w2 := child_wrote e script2 in
-  cmd_run src_params arg_secrets_deep root args e script script2 =
-    (emit ph false w1 (stream_flags (filtered secrets) w1),
-     emit ph false w2 (stream_flags (filtered secrets) w2),
-     child_failed e).
-Proof. exact (cmd_run_streams src_params arg_secrets_deep). Qed.
+  cmd_run_sm src_params arg_secrets_deep redactors_closed_on_every_path root args e ch1 ch2 =
+    ((emit ph false w1 (stream_flags pats w1), []), (emit ph false w2 (stream_flags pats w2), []), child_failed e).
+Proof. exact (cmd_run_sm_streams_src src_params arg_secrets_deep redactors_closed_on_every_path
+                C13_src_redactors_closed_on_every_path). Qed.
+
+(* the hypothesis on the source is needed: were Close reached only after a successful exec.Run, a failing command's
+   unterminated last line would stay in the buffer (nothing forwarded, 17 bytes withheld) *)
+Theorem C13_cmd_close_only_on_success_withholds :
+  let r := cmd_run_sm src_params true false (VObj false []) [] ChildFails [chars "fatal: no newline"] [] in
+  fst (fst (fst r)) = [] /\ snd (fst (fst r)) = chars "fatal: no newline".
+Proof. exact (close_only_on_success_withholds src_params). Qed.
+
+(* [cmd_run], which the correspondence compares with the implementation, is that state machine for every chunking *)
+Theorem C13_cmd_run_is_state_machine : forall root args e script script2 ch1 ch2,
+  concat ch1 = cmd_stream (cmd_args root args) script -> concat ch2 = script2 ->
+  let r := cmd_run_sm src_params arg_secrets_deep true root args e ch1 ch2 in
+  cmd_run src_params arg_secrets_deep root args e script script2 = (fst (fst (fst r)), fst (snd (fst r)), snd r).
+Proof. exact (cmd_run_sm_cmd_run src_params arg_secrets_deep). Qed.
 
 (* ... and no secret of the environment occurs in either stream *)
 Theorem C13_cmd_streams_no_secret_survives_partial : forall root args e script script2 p,
   env_secret true root args p ->
-  rp_min_len src_params <= length p -> has_inner_newline p = false -> indep ph p = true ->
+  rp_min_len src_params <= length p -> has_inner_newline p = false -> ph_clash ph p = false ->
   let r := cmd_run src_params arg_secrets_deep root args e script script2 in
   ~ occurs p (fst (fst r)) /\ ~ occurs p (snd (fst r)).
 Proof. exact (cmd_run_no_secret_survives_src src_params arg_secrets_deep C13_src_collects_nested). Qed.
@@ -171,7 +246,7 @@ Example C13_example :
   /\ run src_params [chars "abcde"; chars "bcd"] [chars "xabcdey"] = chars "x[secret]y"
   /\ run src_params [chars "abc"; chars "def"] [chars "abcdef"] = chars "[secret][secret]"
   /\ (In (chars "hunter2") [chars "hunter2"; chars "pw"] /\ rp_min_len src_params <= length (chars "hunter2")
-      /\ has_inner_newline (chars "hunter2") = false /\ indep ph (chars "hunter2") = true)
+      /\ has_inner_newline (chars "hunter2") = false /\ ph_clash ph (chars "hunter2") = false)
   /\ cmd_out src_params arg_secrets_deep leak_root leak_args (chars "nested99 bob")
       = chars "db=""password""=""[secret]"",""user""=""bob""" ++ [nl] ++ chars "[secret] bob".
 Proof. exact (conj eq_refl (conj eq_refl (conj eq_refl (conj
